@@ -411,6 +411,161 @@ def splay_cases(rng, n, quick):
     return cases
 
 
+def _cmp_key(name):
+    import functools
+    if name == "rev":
+        return functools.cmp_to_key(lambda a, b: (b > a) - (b < a))
+    if name == "mod7":
+        return lambda k: (k % 7, k)
+    return lambda k: k
+
+
+def splay_reference(req):
+    """C17's reference: a sorted association list evaluated on the request; returns the expected answer
+    tokens (None for tokens whose value is not determined by the map semantics, i.e. the tree shape)."""
+    toks = req.split()
+    kind, cmpn, ops = toks[0], toks[1], toks[2:]
+    key = _cmp_key(cmpn)
+    m = {}
+    out = []
+    opn = 0
+    def order():
+        return sorted(m, key=key)
+    for tk in ops:
+        opn += 1
+        c, arg = tk[0], tk[1:]
+        k = int(arg) if arg.lstrip("-").isdigit() else 0
+        o = lambda v: "-" if v is None else str(v)
+        ismap = kind == "SPLAYMAP"
+        if c == "i":
+            old = m.get(k)
+            had = k in m
+            m[k] = opn if ismap else True
+            out.append("i" + (o(old) if ismap else ("0" if had else "1")))
+        elif c == "r":
+            had = k in m
+            old = m.pop(k, None)
+            out.append("r" + (o(old) if ismap else ("1" if had else "0")))
+        elif c == "g":
+            out.append("g" + o(m.get(k)))
+        elif c == "G":
+            if k in m:
+                m[k] += 1000
+                out.append("G%d" % m[k])
+            else:
+                out.append("G-")
+        elif c == "x":
+            out.append("x%d" % m[k] if k in m else "xPANIC")
+        elif c == "f":
+            out.append("f%d" % k if k in m else "f-")
+        elif c == "c":
+            out.append("c1" if k in m else "c0")
+        elif c in ("n", "p"):
+            ks = order()
+            kk = key(k)
+            if c == "n":
+                cand = [x for x in ks if key(x) > kk]
+                r = cand[0] if cand else None
+            else:
+                cand = [x for x in ks if key(x) < kk]
+                r = cand[-1] if cand else None
+            if r is None:
+                out.append(c + "-")
+            else:
+                out.append("%s%d=%d" % (c, r, m[r]) if ismap else "%s%d" % (c, r))
+        elif c in ("m", "M"):
+            ks = order()
+            out.append(c + (str(ks[0] if c == "m" else ks[-1]) if ks else "-"))
+        elif c == "C":
+            m.clear()
+            out.append("C")
+        elif c == "L":
+            out.append("L%d/%d" % (len(m), 1 if not m else 0))
+        elif c == "E":
+            for j, x in enumerate(int(v) for v in arg.split(",") if v):
+                m[x] = (opn * 100 + j) if ismap else True
+            out.append("E")
+        elif c == "D":
+            out.append(None)
+        elif c == "I":
+            ks = order()
+            s_ = "I"
+            for ch in arg:
+                rem = len(ks)
+                if ks:
+                    x = ks.pop(0) if ch == "f" else ks.pop()
+                    s_ += ("%s%d=%d#%d/%d," % (ch, x, m[x], rem, rem)) if ismap else ("%s%d#%d/%d," % (ch, x, rem, rem))
+                else:
+                    s_ += "%s-#%d/%d," % (ch, rem, rem)
+            m.clear()
+            out.append(s_)
+        else:
+            out.append(None)
+    return out
+
+
+def c17_oracle(case):
+    """every answer of the real tree against the reference sorted map; `@moved` marks a key whose address
+    changed while it was stored (reference stability)"""
+    out = []
+    for k, req in case.reqs.items():
+        if not req.startswith("SPLAY"):
+            continue
+        impl = case.impl.get(k, "")
+        if "@moved" in impl:
+            out.append((k, "a stored key changed its address between two lookups (reference stability)"))
+            continue
+        if not impl.startswith("OK"):
+            out.append((k, "history did not complete: %s" % impl[:80]))
+            continue
+        got = impl.split()[1:]
+        exp = splay_reference(req)
+        if len(got) != len(exp):
+            out.append((k, "number of answers differs from the reference"))
+            continue
+        for i, (g, e) in enumerate(zip(got, exp)):
+            if e is not None and g != e:
+                out.append((k, "operation #%d (%s): tree answered %s, reference sorted map %s" % (i + 1, req.split()[2 + i], g, e)))
+                break
+    return out
+
+
+def c16_box_oracle(case):
+    """containment clause of C16 for every pair (floats included): all events created by the pairwise step
+    lie in the bounding boxes of both segments"""
+    out = []
+    for k, req in case.reqs.items():
+        t = req.split()
+        if t[0] != "PI":
+            continue
+        impl = case.impl.get(k, "")
+        if not impl.startswith("OK code=1"):
+            continue
+        try:
+            # PI prec dbg  x y L S cid ox oy io  x y L S cid ox oy io
+            c = [num.dec(v) for v in (t[3], t[4], t[8], t[9], t[11], t[12], t[16], t[17])]
+        except Exception:
+            continue
+        b1 = (min(c[0], c[2]), min(c[1], c[3]), max(c[0], c[2]), max(c[1], c[3]))
+        b2 = (min(c[4], c[6]), min(c[5], c[7]), max(c[4], c[6]), max(c[5], c[7]))
+        parts = impl.split(" | ")
+        qi = [i for i, p in enumerate(parts) if p.startswith("Q ")]
+        if not qi:
+            continue
+        bump = "bumps=0" not in parts[0]
+        for ev in parts[qi[0] + 1:]:
+            e = ev.split()
+            x, y = num.dec(e[0]), num.dec(e[1])
+            for b in (b1, b2):
+                if not (b[0] <= x <= b[2] and b[1] <= y <= b[3]) and not bump:
+                    out.append((k, "division point (%s, %s) lies outside the bounding box of a segment" % (e[0], e[1])))
+                    break
+            else:
+                continue
+            break
+    return out
+
+
 def exhaustive_splay_cases(nkeys=4, depth=5):
     """every operation sequence of length `depth` over a universe of `nkeys` keys (thorough tier)"""
     ops = []
